@@ -273,12 +273,15 @@ SNIPS = [
 ]
 AUX = {"inc.html": "[{{ fn(5) }}{% for x in seq %}{{ x }}{% endfor %}]",
        "lib.html": "{% macro lm(p) %}({{ p }}{{ gfn(p) }}){% endmacro %}",
+       "pbase.html": "P{% block b %}<b>{{ s }}&</b>{% endblock %}|{% block c %}pc{% endblock %}E",
        "lib5.html": "{% macro lv() %}<{{ x }}>{% endmacro %}{% set seen = x|default('none') %}"}
 
 # async-only failures outside the chain model: one known finding per consumer
 PROBES = [
     ("{{ 2 in seq|map('abs') }}", "async generator fed to operator in"),
     ("{{ seq|map('abs') is iterable }}", "async generator fed to test iterable"),
+    ("{% set a, b = [1, 2]|map('abs') %}{{ a }}{{ b }}", "async generator fed to unpacking"),
+    ("{{ dict([(1, 2)]|map('list')) }}", "async generator fed to dict()"),
 ]
 
 
@@ -286,6 +289,10 @@ PROBES = [
 # from the list, async raises - one recorded finding per consumer; (template, signature)
 # oracle regression templates: every environment class x autoescape off / on
 ORACLE_FIXED = [
+    # inheritance: super() / self.block() used in Markup-sensitive ways, under block-level autoescape changes
+    "{% extends 'pbase.html' %}{% block b %}{% autoescape false %}{{ super() ~ '<c>' }}{{ self.c() ~ '<d>' }}{% endautoescape %}"
+    "{% autoescape true %}{{ super() ~ '<e>' }}{{ self.c()|e }}{{ '{}<f>'.format(super()) }}{% endautoescape %}{{ super() ~ '<g>' }}{{ super()|urlize }}{% endblock %}"
+    "{% block c %}<i>{{ s }}</i>{% endblock %}",
     "{% macro pick(xs) %}{{ xs }}{% endmacro %}{{ pick([1, 2, 3])|length }}|{% macro num(x) %}{{ x }}{% endmacro %}{{ num(41) + 1 if num(41) is number else num(41) ~ 'x' }}"
     "|{% if num(0) %}yes{% else %}no{% endif %}",
     "{% macro mm(p) %}<{{ fn(p) }}>{% endmacro %}{{ mm(2) }}{% call mm(3) %}c{% endcall %}{{ mm(1)|length }}{{ [mm(1), '<']|join }}",
@@ -592,7 +599,8 @@ def oracle(ctx, jinja2, loop):
         else:
             ctx.validated()
     # regression templates first: each in every environment class, with autoescape off and on
-    fixed_jobs = [(src, ci, ae) for src in ORACLE_FIXED for ci in range(4) for ae in (False, True)]
+    selector = lambda name: name is not None and not name.startswith("main")      # on for the parents, off for main.html
+    fixed_jobs = [(src, ci, ae) for src in ORACLE_FIXED for ci in range(4) for ae in (False, True, selector)]
     for j in range(-len(fixed_jobs), n):
         i = max(j, 0)
         extra = None
@@ -632,12 +640,12 @@ def oracle(ctx, jinja2, loop):
                 expect = run_entry(make_env(jinja2, cls, ts, False), loop, "main.html", make_data(False, extra), "generate")
             ctx.case(sample={"template": ts["main.html"][:200], "env": cname, "entry": entry, "wrapped": wrapped, "out": out[:80]}
                      if nontriv and ctx.evaluations % 577 == 0 else None,
-                     key=(ts["main.html"], cname, uname, AUTOESCAPE[0], wrapped) if nontriv else None)
+                     key=(ts["main.html"], cname, uname, str(AUTOESCAPE[0])[:10], wrapped) if nontriv else None)
             ctx.count(f"o_{mode}_{entry}{'_wrapped' if wrapped else ''}")
             if NEVER_AWAITED:
                 w = NEVER_AWAITED.pop()
                 NEVER_AWAITED.clear()
-                ctx.reject({"templates": ts, "env": cname, "undefined": uname, "autoescape": AUTOESCAPE[0], "entry": entry, "mode": mode,
+                ctx.reject({"templates": ts, "env": cname, "undefined": uname, "autoescape": AUTOESCAPE[0] if isinstance(AUTOESCAPE[0], bool) else "selector", "entry": entry, "mode": mode,
                             "wrapped": wrapped, "warning": w[2], "tgen_data": repr(extra) if extra else None},
                            f"a coroutine was created and never awaited ({w[2]})", "coroutine never awaited: " + (w[2][0].split("'")[1] if "'" in w[2][0] else "?"))
             if out != expect:
@@ -647,7 +655,7 @@ def oracle(ctx, jinja2, loop):
                     "sum with str start" if ("sum(start=''" in ts["main.html"] and expect == "exc:TypeError") else \
                     f"async generator fed to {cons}" if (cons and out.startswith("exc:")) else \
                     f"async differs: {cname} {entry}{' wrapped data' if wrapped else ''}"
-                ctx.reject({"templates": ts, "env": cname, "undefined": uname, "autoescape": AUTOESCAPE[0], "entry": entry, "mode": mode, "wrapped": wrapped, "expected": expect[:300],
+                ctx.reject({"templates": ts, "env": cname, "undefined": uname, "autoescape": AUTOESCAPE[0] if isinstance(AUTOESCAPE[0], bool) else "selector", "entry": entry, "mode": mode, "wrapped": wrapped, "expected": expect[:300],
                             "got": out[:300], "tgen_data": repr(extra) if extra else None},
                            f"{mode} {entry} on {cname}{' with async-wrapped data' if wrapped else ''} gives {out[:80]!r}, "
                            f"sync render gives {expect[:80]!r}", sig)
@@ -681,6 +689,8 @@ def replay(ctx, data):
         cls = dict(env_classes(jinja2))[case["env"]]
         UNDEFINED[0] = getattr(jinja2, case.get("undefined", "Undefined"))
         AUTOESCAPE[0] = case.get("autoescape", False)
+        if AUTOESCAPE[0] == "selector":
+            AUTOESCAPE[0] = lambda name: name is not None and not name.startswith("main")
         extra = eval(case["tgen_data"]) if case.get("tgen_data") else None  # noqa: written by this harness
         ts = case["templates"]
         ref = run_entry(make_env(jinja2, cls, ts, False), loop, "main.html", make_data(False, extra), "render")
